@@ -172,6 +172,14 @@ def run_herd(case):
     if case.get("with_meat_dict"):
         kd = {"KCALS_PER_CHICKEN": 1.6 * 1525 / 1e9, "KCALS_PER_PIG": 90 * 3590 / 1e9, "KCALS_PER_SMALL_ANIMAL": 2.36 * 1525 / 1e9,
               "KCALS_PER_MEDIUM_ANIMAL": 24.6 * 3590 / 1e9, "KCALS_PER_LARGE_ANIMAL": 269.7 * 2750 / 1e9}
+        # the table is the country's own (kg of meat per head from its production statistics): other magnitudes, and a zero
+        # for a class the statistics report no meat for, are ordinary values - the ranking is defined for all of them
+        rk = random.Random(case["gen_seed"] * 31 + 7)
+        variant = case["gen_seed"] % 3
+        if variant == 1:
+            kd = {k: v * rk.uniform(0.3, 3.0) for k, v in kd.items()}
+        elif variant == 2:
+            kd[rk.choice(sorted(kd))] = 0.0
     _state["feed_calls"], _state["hours"] = [], []
     try:
         animals, fu, gu = ap.main(case["iso"], make_food(fa), make_food(ga), case["strategy"], None, remove_first_month=0,
